@@ -75,7 +75,7 @@ impl Scenario for C20 {
         grid_count()
             + match tier {
                 Tier::Quick => 150_000,
-                Tier::Thorough => 3_000_000,
+                Tier::Thorough => 12_000_000,
             }
     }
     fn plan(&self, seed: u64, idx: u64, _tier: Tier) -> Plan {
